@@ -204,6 +204,17 @@ func registerNatives(p *Program) {
 	rt("BytesEqual", func(r *Run, g *Goroutine, a []Value) Value {
 		return r.bytesEqual(a[0].(Slice), a[1].(Slice))
 	})
+	rt("SameSymbol", func(r *Run, g *Goroutine, a []Value) Value {
+		ta, oka := a[0].(*sym.Term)
+		tb, okb := a[1].(*sym.Term)
+		if oka && okb {
+			return ta == tb
+		}
+		if !oka && !okb {
+			return a[0].(uint64) == a[1].(uint64)
+		}
+		return false
+	})
 	rt("MapOrder", func(r *Run, g *Goroutine, a []Value) Value {
 		r.mapOrder = int(a[0].(uint64))
 		return nil
@@ -291,15 +302,6 @@ func registerNatives(p *Program) {
 	N["internal/bytealg.IndexString"] = func(r *Run, g *Goroutine, a []Value) Value {
 		return uint64(int64(strings.Index(str(a[0]), str(a[1]))))
 	}
-	N["internal/bytealg.Compare"] = func(r *Run, g *Goroutine, a []Value) Value {
-		x, ok1 := concreteBytes(a[0].(Slice))
-		y, ok2 := concreteBytes(a[1].(Slice))
-		if !ok1 || !ok2 {
-			r.abort("bytes.Compare on symbolic content")
-		}
-		return uint64(int64(strings.Compare(string(x), string(y))))
-	}
-	N["bytes.Compare"] = N["internal/bytealg.Compare"]
 	N["internal/stringslite.Index"] = N["internal/bytealg.IndexString"]
 
 	strFn := func(name string, f func(a []Value) Value) {
